@@ -592,7 +592,7 @@ GRIDS = {
     "md009": [{"br_spaces": 3}, {"strict": True}],
     "md010": [{"code_blocks": False}],
     "md012": [{"maximum": 2}],
-    "md013": [{"line_length": 12}, {"line_length": 12, "strict": True}, {"line_length": 12, "code_blocks": False, "code_block_line_length": 12}, {"line_length": 12, "headings": False, "heading_line_length": 12}, {"heading_line_length": 5}, {"code_block_line_length": 5}, {"line_length": 5, "heading_line_length": 30, "code_block_line_length": 30}],
+    "md013": [{"line_length": 12}, {"line_length": 12, "strict": True}, {"line_length": 12, "code_blocks": False, "code_block_line_length": 12}, {"line_length": 12, "headings": False, "heading_line_length": 12}, {"heading_line_length": 5}, {"code_block_line_length": 5}, {"heading_line_length": 3}, {"heading_line_length": 5, "strict": True}, {"code_block_line_length": 3, "strict": True}, {"line_length": 5, "heading_line_length": 30, "code_block_line_length": 30}],
     "md022": [{"lines_above": 0}, {"lines_below": 0}, {"lines_above": 2, "lines_below": 2}],
     "md025": [{"level": 2}],
     "md026": [{"punctuation": ".?"}],
